@@ -85,6 +85,9 @@ class Doc:
         # a third target whose attribute keys are not lower-case (only the API can store them; HTML names are case-insensitive)
         self.r = self.soup.new_tag('i')
         root.append(self.r)
+        # a decoy whose attribute keys are `class` / `id` only under full Unicode case folding (ASCII case-insensitivity is the rule)
+        self.look = self.soup.new_tag('u')
+        root.append(self.look)
 
     def set(self, value, escaped):
         def put(el, v):
@@ -96,6 +99,11 @@ class Doc:
         self.strclass = not any(c in ' \t\n\r\f' for c in value) and value != ''
         if self.strclass:
             self.q['class'] = value                  # one class token by CSS rules (no CSS white space inside)
+        self.look.attrs.clear()
+        self.look['cla\u017fs'] = [value]
+        self.look['CLA\u017fS'] = value
+        self.look['\u0131d'] = value
+        self.look['\u212a'] = value
         self.r.attrs.clear()
         self.r['ID'] = value
         self.r['Class'] = [value]
